@@ -329,9 +329,9 @@ UPD_DOC = [
     ">>shifted_x=row['x']+row['shift_x']",
     ">>shifted_y=row['y']+row['shift_y']",
     ">>shifted_z=row['z']+row['shift_z']",
-    ">>new_row['x']=float(decimal.Decimal(shifted_x).to_integral_value(rounding=decimal.ROUND_HALF_UP))",
-    ">>new_row['y']=float(decimal.Decimal(shifted_y).to_integral_value(rounding=decimal.ROUND_HALF_UP))",
-    ">>new_row['z']=float(decimal.Decimal(shifted_z).to_integral_value(rounding=decimal.ROUND_HALF_UP))",
+    ">>new_row['x']=float(decimal.Decimal(float(shifted_x)).to_integral_value(rounding=decimal.ROUND_HALF_UP))",
+    ">>new_row['y']=float(decimal.Decimal(float(shifted_y)).to_integral_value(rounding=decimal.ROUND_HALF_UP))",
+    ">>new_row['z']=float(decimal.Decimal(float(shifted_z)).to_integral_value(rounding=decimal.ROUND_HALF_UP))",
     ">>new_row['shift_x']=shifted_x-new_row['x']",
     ">>new_row['shift_y']=shifted_y-new_row['y']",
     ">>new_row['shift_z']=shifted_z-new_row['z']",
@@ -631,9 +631,12 @@ def translate(src):
             if len(v) != 1:
                 raise A(f"update_coordinates: new_row['{ax}']")
             t = core.norm_expr(v[0])
-            pre = f"float(decimal.Decimal(shifted_{ax}).to_integral_value(rounding=decimal."
+            # since d32cdce the sum goes through float() first: `Decimal(numpy.int64)` raises for a row of an all-integer frame; float() is the
+            # identity on the float64 sums C10 produces (the shift columns are float after the expansion), so the model's rounding of the EXACT
+            # value is unchanged
+            pre = f"float(decimal.Decimal(float(shifted_{ax})).to_integral_value(rounding=decimal."
             if not (t.startswith(pre) and t.endswith("))")):
-                raise A(f"update_coordinates: new_row['{ax}'] = float(Decimal(shifted_{ax}).to_integral_value(rounding=...))")
+                raise A(f"update_coordinates: new_row['{ax}'] = float(Decimal(float(shifted_{ax})).to_integral_value(rounding=...)) (found `{t}`)")
             modes.append(t[len(pre):-2])
             s = [v for (t, v, c) in asg if t == f"shifted_{ax}"]
             r = [v for (t, v, c) in asg if t == f"new_row['shift_{ax}']"]
